@@ -125,11 +125,20 @@ pub fn search_ast(label: &str, ast: jmespath::ast::Ast, runtime: &jmespath::Runt
 /// some constant, or small random numbers (they only matter for error
 /// coordinates, which are not compared here).
 pub fn ast_route_agrees(sub: &str, tree: &crate::refast::RefExpr, text: &str, doc_json: &str, src: &mut crate::src::Src) -> Result<(), crate::runner::Failure> {
-    let shape = crate::refast::lower(tree);
     let mode = src.below(4);
     let c = src.below(40);
+    let bytes: Vec<usize> = (0..64).map(|_| src.below(12)).collect();
+    let label = src.below(3);
+    ast_route_agrees_with(sub, tree, text, doc_json, mode, c, bytes, label)
+}
+
+#[allow(clippy::too_many_arguments)]
+pub fn ast_route_agrees_with(sub: &str, tree: &crate::refast::RefExpr, text: &str, doc_json: &str, mode: usize, c: usize, mut bytes: Vec<usize>, label: usize) -> Result<(), crate::runner::Failure> {
+    let shape = crate::refast::lower(tree);
     let mut k = 0usize;
-    let mut bytes: Vec<usize> = (0..64).map(|_| src.below(12)).collect();
+    if bytes.len() < 64 {
+        bytes.resize(64, 0);
+    }
     let mut next = move || -> usize {
         k += 1;
         match mode {
@@ -143,7 +152,7 @@ pub fn ast_route_agrees(sub: &str, tree: &crate::refast::RefExpr, text: &str, do
         }
     };
     let ast = crate::shape::unstrip(&shape, &mut next);
-    let label = match src.below(3) {
+    let label = match label {
         0 => String::new(),
         1 => text.to_string(),
         _ => "hand-built".to_string(),
